@@ -7,6 +7,7 @@ import argparse
 import glob
 import importlib
 import json
+import logging
 import multiprocessing as mp
 import os
 import sys
@@ -77,6 +78,9 @@ def run_case(facet, recipe, ctx, excluded):
 def shard_main(conn, prop, facet_name, tier, shard, nshards, n_examples, seed, excluded, scale):
     out = {"facet": facet_name, "shard": shard, "status": "ok"}
     t0 = time.time()
+    import warnings
+    warnings.simplefilter("ignore")
+    logging.disable(logging.CRITICAL)
     try:
         mod = load_module(prop)
         facet = {f.name: f for f in mod.FACETS}[facet_name]
@@ -198,6 +202,9 @@ def replay_one(mod, prop, path):
 
 
 def replay_worker(conn, prop, path):
+    import warnings
+    warnings.simplefilter("ignore")
+    logging.disable(logging.CRITICAL)
     try:
         mod = load_module(prop)
         conn.send(replay_one(mod, prop, path))
